@@ -111,6 +111,13 @@ class _InlineFunction(XPathFunction):
             getattr(self.body, 'source', '')
         )
 
+    def check_arguments_number(self, nargs: int) -> None:
+        if self.label == 'inline function' and self.varnames is not None \
+                and nargs != len(self.varnames):
+            msg = "the function has arity {}, called with {} arguments"
+            raise self.error('XPTY0004', msg.format(len(self.varnames), nargs))
+        super().check_arguments_number(nargs)
+
     def __call__(self, *args: ta.FunctionArgType,
                  context: Optional[XPathContext] = None) -> Any:
 
@@ -1576,6 +1583,8 @@ def select__for_each(self: XPathFunction, context: ta.ContextType = None) \
 
     func = self.get_argument(context, index=1, cls=XPathFunction, required=True)
     assert isinstance(func, XPathFunction)
+    if func.arity != 1:
+        raise self.error('XPTY0004', "function arity must be 1")
 
     for item in self[0].select(copy(context)):
         result = func(item, context=context)
@@ -1592,8 +1601,8 @@ def select__filter(self: XPathFunction, context: ta.ContextType = None)\
     func = self.get_argument(context, index=1, cls=XPathFunction, required=True)
     assert isinstance(func, XPathFunction)
 
-    if func.nargs == 0:
-        raise self.error('XPTY0004', f'invalid number of arguments {func.nargs}')
+    if func.arity != 1:
+        raise self.error('XPTY0004', "function arity must be 1")
 
     for item in self[0].select(copy(context)):
         cond = func(item, context=context)
